@@ -37,7 +37,7 @@ func H_C14_gate_ack() {
 	w, k, ctx := newWorld()
 	p := nondetPacket("p")
 	vp.Assume(p.Sequence < 100)
-	k.SetPacketCommitment(ctx, p.SourceChain, p.DestinationChain, p.Sequence, packettypes.CommitPacket(p))
+	k.SetPacketCommitment(ctx, p.SourceChain, p.DestinationChain, p.Sequence, refCommit(p.Data))
 	ackChain := p.DestinationChain
 	if p.SourceChain == w.self && len(p.RelayChain) > 0 {
 		ackChain = p.RelayChain
